@@ -214,7 +214,7 @@ def root_cause(path, grid, delim, quote, hdr, tables, bad):
             "the file (no failure with skipinitialspace=False given explicitly)")
   rest = attempt(g, True, skipinitialspace=False)
   if not rest:
-    return ('C32/whitespace-only-cell-treated-as-empty',
+    return ('C32/whitespace-only-cell-treated-as-empty/' + bad[0],
             "a cell of only whitespace is lost (dropped row/column); no failure when whitespace-"
             "only cells count as empty")
   if g is grid:
